@@ -109,7 +109,7 @@ func init() {
 			Level: "exploration",
 			Rule: "family 0: every entry set of size ≤ setMax over {exact, d/, d/*} × paths(depth) ∪ {Add(/), /*}, every query path incl. / and \"\"; " +
 				"family 1: every 4-tuple (Writable,Readable,Statable,SoftBan) of sets of size ≤ 1 at depth 2, Handler.CheckRead/Write/Stat on every query; " +
-				"family 2: real symlink forest, raw-or-real clause; family 3: counter tables of ≤ 2 names × counts {-1..3}, all call sequences ≤ seqLen; family 4: sets produced by the grant constructors (AddFilePermission of every path × permission, singly and in pairs; the shipped GetConf loader for every program type) — the admitted set is exactly the granted path in its class plus its proper ancestor directories as exact stat entries, on every query incl. \"\" and unresolvable names. " +
+				"family 2: real symlink forest, raw-or-real clause; family 3: counter tables of ≤ 2 names × counts {-1..3}, all call sequences ≤ seqLen; family 4: sets produced by the grant constructors (AddFilePermission of every path × permission, singly and in pairs; the shipped GetConf loader for every program type, also with command-line additions whose names cannot be resolved: they must grant nothing) — the admitted set is exactly the granted path in its class plus its proper ancestor directories as exact stat entries, on every query incl. \"\" and unresolvable names. " +
 				"non-trivial: the entry set is non-empty and the query is not literally one of the entries; distinct = hash of (family, set, query, answer)",
 			Bound: map[string]any{"depth": depth, "set_size": setMax, "cascade_depth": cascadeDepth, "counter_seq_len": seqLen,
 				"excluded": []string{"query / against entry /* (is the root a child of itself?)", "hand-inserted map key \"/\" (not constructible through Add/AddRange)"}},
@@ -410,10 +410,43 @@ func c18constructors(x *mc.X, paths, queries []string) {
 		types := []string{"", "python3", "compiler", "default"}
 		pt := types[x.Choose(len(types), "type")]
 		wp := []string{"/vq0p/work", "/vq0p"}[x.Choose(2, "workpath")]
-		_, _, _, h := config.GetConf(pt, wp, []string{wp + "/a.out"}, nil, nil, false)
+		// additions given on the command line go through GetExtraSet (names resolved on the host) and AddRange: a name
+		// that cannot be resolved (e.g. an output file that does not exist yet) must grant nothing
+		extraKinds := []string{"none", "add-readable(unresolvable)", "add-writable(unresolvable)", "add-readable+add-writable(unresolvable)", "add-writable(unresolvable)+raw"}
+		ek := extraKinds[x.Choose(len(extraKinds), "additions")]
+		var addRead, addWrite []string
+		switch ek {
+		case "add-readable(unresolvable)":
+			addRead = filehandler.GetExtraSet([]string{"/vq0x/no/such/input"}, nil)
+		case "add-writable(unresolvable)":
+			addWrite = filehandler.GetExtraSet([]string{"/vq0x/no/such/output"}, nil)
+		case "add-readable+add-writable(unresolvable)":
+			addRead = filehandler.GetExtraSet([]string{"vq0x-relative-missing"}, nil)
+			addWrite = filehandler.GetExtraSet([]string{"/vq0x/no/such/output", "/vq0x/another"}, nil)
+		case "add-writable(unresolvable)+raw":
+			addWrite = filehandler.GetExtraSet([]string{"/vq0x/no/such/output"}, []string{"/vq0r/raw-granted"})
+		}
+		_, _, _, h := config.GetConf(pt, wp, []string{wp + "/a.out"}, addRead, addWrite, false)
+		_, _, _, h0 := config.GetConf(pt, wp, []string{wp + "/a.out"}, nil, nil, false)
 		x.Note("family", "constructors/GetConf")
-		x.Note("config", fmt.Sprintf("type %q work path %s", pt, wp))
+		x.Note("config", fmt.Sprintf("type %q work path %s additions %s", pt, wp, ek))
 		tally := map[string]int{}
+		// differential: on names inside and outside the work directory that the additions do not name, the verdicts are
+		// those of the same configuration without additions
+		for _, q := range []string{wp + "/zz-uncovered", wp + "/zz-uncovered/deep", wp + "/a.out", wp, "/vq0x/no/such", "/vq0q/two-levels", ""} {
+			g := [3]ptracer.TraceAction{h.CheckWrite(q), h.CheckRead(q), h.CheckStat(q)}
+			b := [3]ptracer.TraceAction{h0.CheckWrite(q), h0.CheckRead(q), h0.CheckStat(q)}
+			for c := 0; c < 3; c++ {
+				x.Count(1)
+				x.Distinct(fmt.Sprint("gx", pt, wp, ek, q, c, g[c]))
+				if g[c] != b[c] {
+					x.Failf(fmt.Sprintf("C18/getconf-unresolvable-addition-grants-%s", pn[c+1]), "GetConf(%q, %s) with %s: Check%s(%q) = %d, without the additions it is %d — a name that cannot be resolved must grant nothing (0 allow, 1 ban, 2 kill)", pt, wp, ek, pn[c+1], q, g[c], b[c])
+				}
+			}
+		}
+		if ek == "add-writable(unresolvable)+raw" && h.CheckWrite("/vq0r/raw-granted") != ptracer.TraceAllow {
+			x.Failf("C18/getconf-refuses-granted", "GetConf(%q, %s) with %s: the raw addition is not writable", pt, wp, ek)
+		}
 		for _, q := range []string{"", "/vq0q/unresolvable/elsewhere", "/vq0q/two-levels", "vq0q/relative-unresolvable"} {
 			got := [3]ptracer.TraceAction{h.CheckWrite(q), h.CheckRead(q), h.CheckStat(q)}
 			for c := 0; c < 3; c++ {
